@@ -28,6 +28,8 @@ def register(reg, repo):
         "traceback": ["object"],
         "coroutine": ["object"],
     })
+    reg.pyfuncs["prio"] = _prio
+    reg.disjoint_classes += [("BatchBase", "BatchItemBase"), ("BatchBase", "AsyncTask"), ("BatchItemBase", "AsyncTask")]
     reg.presence_fields.update({"_task", "_traceback", "asynq", "async", "is_pure_async_fn", "fn",
                                 "gi_frame", "_active_task", "value"})
 
@@ -44,20 +46,59 @@ def register(reg, repo):
 
     # ---- object invariants --------------------------------------------------
     def inv_future(eng, heap):
-        """I-Fut: an uncomputed future has no error."""
+        """I-Fut: an uncomputed future has no error and has not been announced."""
         f = q("f!inv")
-        return [z3.ForAll([f], z3.Implies(
-            z3.And(heap.sel("$alloc", f), eng.isinstance_f(f, [eng.ct.cls("FutureBase")]),
-                   heap.sel("_value", f) == NONE_MARK),
-            heap.sel("_error", f) == NONE),
-            patterns=[heap.sel("_value", f)])]
+        g = z3.And(heap.sel("$alloc", f), eng.isinstance_f(f, [eng.ct.cls("FutureBase")]))
+        return [z3.ForAll([f], z3.Implies(z3.And(g, heap.sel("_value", f) == NONE_MARK),
+                                          z3.And(heap.sel("_error", f) == NONE, heap.sel("$n_notified", f) == 0)),
+                          patterns=[heap.sel("_value", f)]),
+                z3.ForAll([f], z3.Implies(g, heap.sel("$n_notified", f) >= 0),
+                          patterns=[heap.sel("$n_notified", f)])]
     reg.inv_hooks.append(inv_future)
+
+    def inv_item(eng, heap):
+        """I-Item: while an (initialised) item is uncomputed it sits in its batch's list at its index."""
+        x = q("it!inv")
+        g = z3.And(heap.sel("$alloc", x), eng.isinstance_f(x, [eng.ct.cls("BatchItemBase")]))
+        b = heap.sel("batch", x)
+        items = heap.sel("items", b)
+        idx = smt.int_of(heap.sel("index", x))
+        return [z3.ForAll([x], z3.Implies(z3.And(g, b != NONE, heap.sel("_value", x) == NONE_MARK),
+                                          z3.And(0 <= idx, idx < heap.sel("$llen", items),
+                                                 z3.Select(heap.sel("$litem", items), idx) == x)),
+                          patterns=[heap.sel("_value", x), heap.sel("batch", x)])]
+    reg.inv_hooks.append(inv_item)
+
+    def inv_batch(eng, heap):
+        """I-Batch: the members of b.items are items of b; once b has been announced they are all computed;
+        two batches never share an items list."""
+        b = q("b!inv")
+        j = z3.Int(fresh_name("j!inv"))
+        g = z3.And(heap.sel("$alloc", b), eng.isinstance_f(b, [eng.ct.cls("BatchBase")]))
+        items = heap.sel("items", b)
+        it = z3.Select(heap.sel("$litem", items), j)
+        inr = z3.And(0 <= j, j < heap.sel("$llen", items))
+        b2 = q("b2!inv")
+        g2 = z3.And(heap.sel("$alloc", b2), eng.isinstance_f(b2, [eng.ct.cls("BatchBase")]))
+        return [z3.ForAll([b, j], z3.Implies(z3.And(g, inr),
+                                             z3.And(heap.sel("$alloc", it), eng.isinstance_f(it, [eng.ct.cls("BatchItemBase")]),
+                                                    heap.sel("batch", it) == b)),
+                          patterns=[z3.Select(heap.sel("$litem", heap.sel("items", b)), j)]),
+                z3.ForAll([b, j], z3.Implies(z3.And(g, inr, heap.sel("$n_notified", b) >= 1),
+                                             heap.sel("_value", it) != NONE_MARK),
+                          patterns=[z3.Select(heap.sel("$litem", heap.sel("items", b)), j)]),
+                z3.ForAll([b, b2], z3.Implies(z3.And(g, g2, b != b2), heap.sel("items", b) != heap.sel("items", b2)),
+                          patterns=[z3.MultiPattern(heap.sel("items", b), heap.sel("items", b2))])]
+    reg.inv_hooks.append(inv_batch)
 
     def fresh_future(eng, st, o, clsname):
         # modelling choice: the (unreadable) fields of a not-yet-initialised future are the pending defaults
         if eng.ct.is_sub(clsname, "FutureBase"):
             st.heap.store("_value", o, NONE_MARK)
             st.heap.store("_error", o, NONE)
+            st.heap.store("$n_notified", o, z3.IntVal(0))
+        if eng.ct.is_sub(clsname, "BatchItemBase"):
+            st.heap.store("batch", o, NONE)     # cdef object fields start as None
     reg.fresh_hooks.append(fresh_future)
 
     # ---- two-state invariants (E2) -------------------------------------------
@@ -67,10 +108,12 @@ def register(reg, repo):
                           patterns=[new.sel("$alloc", x)])]
 
     def ts_future(eng, old, new, skip=()):
-        """T1: a computed future stays computed with the identical value / error."""
+        """T1: a computed future stays computed with the identical value / error; it is not announced again
+        and its flush body does not run again."""
         f = q("f!t1")
         body = [new.sel("_value", f) == old.sel("_value", f),
-                new.sel("_error", f) == old.sel("_error", f)]
+                new.sel("_error", f) == old.sel("_error", f),
+                new.sel("$n_flush_body", f) == old.sel("$n_flush_body", f)]
         if "notif" not in skip:
             body.append(new.sel("$n_notified", f) == old.sel("$n_notified", f))
         return [z3.ForAll([f], z3.Implies(
@@ -78,41 +121,92 @@ def register(reg, repo):
                    old.sel("_value", f) != NONE_MARK),
             z3.And(*body)),
             patterns=[new.sel("_value", f)])]
+
+    def ts_announced(eng, old, new, skip=()):
+        """T4: a future completed by a public operation has been announced by the time that operation returns."""
+        f = q("f!t4")
+        return [z3.ForAll([f], z3.Implies(
+            z3.And(old.sel("$alloc", f), eng.isinstance_f(f, [eng.ct.cls("FutureBase")]),
+                   old.sel("_value", f) == NONE_MARK, new.sel("_value", f) != NONE_MARK),
+            new.sel("$n_notified", f) >= 1),
+            patterns=[new.sel("$n_notified", f)])]
+
+    def ts_flushbody(eng, old, new, skip=()):
+        """T5: a batch that is still pending after an operation has not had its flush body run by it."""
+        if "flushbody" in skip:
+            return []
+        f = q("f!t5")
+        return [z3.ForAll([f], z3.Implies(
+            z3.And(old.sel("$alloc", f), eng.isinstance_f(f, [eng.ct.cls("BatchBase")]),
+                   new.sel("_value", f) == NONE_MARK),
+            new.sel("$n_flush_body", f) == old.sel("$n_flush_body", f)),
+            patterns=[new.sel("$n_flush_body", f)])]
+
+    def ts_batch(eng, old, new, skip=()):
+        """T3: a batch keeps its items list object; while a batch is computed but not yet announced
+        (its items are being completed) nobody adds to or clears the list."""
+        b = q("b!t3")
+        g = z3.And(old.sel("$alloc", b), eng.isinstance_f(b, [eng.ct.cls("BatchBase")]))
+        items = old.sel("items", b)
+        it = q("it!t6")
+        gi = z3.And(old.sel("$alloc", it), eng.isinstance_f(it, [eng.ct.cls("BatchItemBase")]))
+        return [z3.ForAll([it], z3.Implies(gi, new.sel("batch", it) == old.sel("batch", it)),
+                          patterns=[new.sel("batch", it)]),
+                z3.ForAll([b], z3.Implies(g, z3.And(new.sel("items", b) == items,
+                                                    z3.Implies(old.sel("$b_switched", b), new.sel("$b_switched", b)))),
+                          patterns=[new.sel("items", b), old.sel("items", b)]),
+                z3.ForAll([b], z3.Implies(z3.And(g, old.sel("_value", b) != NONE_MARK, old.sel("$n_notified", b) == 0),
+                                          z3.And(new.sel("$llen", items) == old.sel("$llen", items),
+                                                 new.sel("$litem", items) == old.sel("$litem", items))),
+                          patterns=[new.sel("$llen", old.sel("items", b)), old.sel("$llen", old.sel("items", b)),
+                                    new.sel("$litem", old.sel("items", b)), old.sel("$n_notified", b)])]
     reg.two_state_hooks.append(ts_alloc)
     reg.two_state_hooks.append(ts_future)
+    reg.two_state_hooks.append(ts_batch)
+    reg.two_state_hooks.append(ts_announced)
+    reg.two_state_hooks.append(ts_flushbody)
 
     # ---- well-formedness assumptions from the .pxd types ----------------------
-    typed = []
+    # Facts about one field array (entry / havocked arrays only; our own stores are not covered):
+    # attached to an obligation only when that array occurs in it.
+    typed = {}
     for mod, pxd in repo.pxd.items():
         for (cls, field), ctype in pxd.fields.items():
             t = ctype.split(".")[-1]
             if t in ("list", "set", "bint"):
-                typed.append((cls, field, t))
+                typed.setdefault(field, []).append((cls, t))
 
-    def wf_typed(eng, heap):
+    def array_facts(eng, field, a):
         out = []
-        for cls, field, t in typed:
+        x = q("x!wf")
+        for cls, t in typed.get(field, []):
             if not eng.ct.known(cls):
                 continue
-            x = q("x!wf")
-            guard = z3.And(heap.sel("$alloc", x), eng.isinstance_f(x, [eng.ct.cls(cls)]))
-            v = heap.sel(field, x)
-            if t == "bint":
-                body = V.is_bval(v)
-            else:
-                body = z3.And(smt.typeof(v) == eng.ct.cls(t), heap.sel("$alloc", v))
-            out.append(z3.ForAll([x], z3.Implies(guard, body), patterns=[heap.sel(field, x)]))
-        # list lengths are non-negative
-        l = q("l!wf")
-        out.append(z3.ForAll([l], heap.sel("$llen", l) >= 0, patterns=[heap.sel("$llen", l)]))
-        out.append(z3.ForAll([l], heap.sel("$olen", l) >= 0, patterns=[heap.sel("$olen", l)]))
-        # distinguished constants are allocated values
-        # ints, bools, None and the named constants (classes, markers, globals) always exist
-        x = q("x!wfa")
-        out.append(z3.ForAll([x], z3.Implies(z3.Or(z3.Not(V.is_obj(x)), V.oid(x) < 0), heap.sel("$alloc", x)),
-                             patterns=[heap.sel("$alloc", x)]))
+            guard = eng.isinstance_f(x, [eng.ct.cls(cls)])
+            v = z3.Select(a, x)
+            body = V.is_bval(v) if t == "bint" else smt.typeof(v) == eng.ct.cls(t)
+            out.append(z3.ForAll([x], z3.Implies(guard, body), patterns=[z3.Select(a, x)]))
+        if field == "batch":
+            v = z3.Select(a, x)
+            out.append(z3.ForAll([x], z3.Implies(eng.isinstance_f(x, [eng.ct.cls("BatchItemBase")]),
+                                                 z3.Or(v == NONE, eng.isinstance_f(v, [eng.ct.cls("BatchBase")]))),
+                                 patterns=[z3.Select(a, x)]))
+        import re as _re
+        m = _re.match(r"^(.*)@(\d+)$", a.decl().name())
+        if m and field in ("batch", "items", "_tasks", "_batches", "_dependencies", "active_task", "current", "_contexts"):
+            # reachable values exist: alloc at the same epoch (entry / whole-heap havoc arrays only)
+            from pyvc.state import AVB
+            al = z3.Const("$alloc@%s" % m.group(2), AVB)
+            out.append(z3.ForAll([x], z3.Implies(z3.Select(al, x), z3.Select(al, z3.Select(a, x))),
+                                 patterns=[z3.Select(a, x)]))
+        if field in ("$llen", "$olen"):
+            out.append(z3.ForAll([x], z3.Select(a, x) >= 0, patterns=[z3.Select(a, x)]))
+        if field == "$alloc":
+            # ints, bools, None and the named constants (classes, markers, globals) always exist
+            out.append(z3.ForAll([x], z3.Implies(z3.Or(z3.Not(V.is_obj(x)), V.oid(x) < 0), z3.Select(a, x)),
+                                 patterns=[z3.Select(a, x)]))
         return out
-    reg.wf_hooks.append(wf_typed)
+    reg.array_hooks.append(array_facts)
 
     # ---- diagnostic callees: total, no effect on the heap ---------------------
     # (their own bodies are verified against these contracts in contracts/debug_c.py)
@@ -136,8 +230,11 @@ def register(reg, repo):
 
     # qcore.events.EventHook
     notif_post = ["arg.$n_notified == old(arg.$n_notified) + 1",
-                  "all(implies(old(computed(f)) and f is not arg, f.$n_notified == old(f.$n_notified)) for f in objs(FutureBase))"]
+                  "all(implies(old(alloc(f)) and old(computed(f)) and f is not arg, f.$n_notified == old(f.$n_notified)) for f in objs(FutureBase))"]
+    reg.macro("items_done", ["b"], "all(computed(b.items[j]) for j in range(0, len(b.items)))")
+    reg.macro("in_window", ["f"], "(not computed(f)) and isinstance(f, BatchItemBase) and (f.batch is None or computed(f.batch))")
     reg.add(C("EventHook.safe_trigger", params=["self", "arg"], modifies="*", trusted=True,
+              requires=["implies(isinstance(arg, BatchBase), items_done(arg))"],
               post=notif_post, xpost=notif_post + ["isinstance(exc, Exception)"],
               labels={"ts_skip": ("notif",)},
               note="qcore EventHook.safe_trigger: calls every handler once, then re-raises the first error; "
@@ -153,3 +250,17 @@ def register(reg, repo):
     reg.add(C("env.call0", params=["fn"], kind="callvalue", modifies="*", trusted=True,
               post=["fn.$n_calls == old(fn.$n_calls) + 1", "result is not _none"], xpost=["fn.$n_calls == old(fn.$n_calls) + 1"],
               note="unknown callable: arbitrary code under E1/E2; ghost $n_calls counts invocations"))
+
+
+PRIO = None
+
+
+def _prio(specenv, b):
+    """prio(b): the value b.get_priority() returns in the current heap (pure, deterministic: assumption)."""
+    global PRIO
+    import z3 as _z3
+    from pyvc.smt import V as _V
+    from pyvc.state import AVV, AVI
+    if PRIO is None:
+        PRIO = _z3.Function("prio", _V, AVV, AVI, _V)
+    return PRIO(b, specenv.heap.get("items"), specenv.heap.get("$llen"))
